@@ -83,6 +83,9 @@ func bufferWrites(p *Program, fn *ssa.Function) []string {
 }
 
 func checkC14(p *Program, r *Report) {
+	// round 6 (systematic): no unguarded mutable package-level state behind this property's functions (§2.9)
+	sharedStateRule(p, r, NewEffects(p), "C14.shared", []string{"gcs/gcs.go", "gcs/builder/builder.go"})
+	r.Floor("C14.shared", 0)
 	r.Explain = "C14.const: DefaultP = 19, DefaultM = 784931, and the block-filter path reaches the parameter setters with exactly these constants; the key is bytes " +
 		"[0,16) of the block hash. C14.order: NBytes = VarInt(N) ‖ data, NPBytes = VarInt(N) ‖ P ‖ data, PBytes = P ‖ data; FromNBytes reads the VarInt and hands " +
 		"the rest to FromBytes. C14.content: the block-filter function adds spent outpoints only for non-coinbase transactions and output scripts only when " +
